@@ -126,6 +126,11 @@ func TestC03(t *testing.T) {
 			}
 			// every third tree is traversed with Reify installed as NodeReifier as well (blocks then arrive reified)
 			ls := st.LinkSystemCfg(true, i%3 == 1, i%3 == 2)
+			if i%3 == 0 && i%2 == 1 {
+				// a link system derived by value from a configured one, reading from its own block source
+				ls = st.LinkSystemDerived(store.New())
+				c.Count("linksystem_derived", 1)
+			}
 			c.Count(fmt.Sprintf("linksystem_cfg_%d", i%3), 1)
 			rr := c.Rand()
 			walk := func(path string, spec selbuilder.SelectorSpec, matchPath bool) ([]matchRec, error) {
